@@ -253,6 +253,56 @@ static void * node_main(void * arg) {
   return value_of(n->tag);
 }
 
+/* ------------------------------------------------------------------ custom steal function (C02) */
+static __thread uint64_t tls_steal_rng;
+static _Atomic long g_st_take, g_st_decl_calls, g_st_declined, g_st_peek, g_st_pass_ok, g_st_pass_fail, g_st_got;
+static int decide_half(myth_thread_t th, void * u) {
+  uint64_t * r = (uint64_t *)u;
+  (void)th;
+  atomic_fetch_add(&g_st_decl_calls, 1);
+  *r = hk_mix(*r);
+  if (*r & 1) { atomic_fetch_add(&g_st_declined, 1); return 0; }
+  return 1;
+}
+static myth_thread_t my_steal(int rank) {
+  int nw = myth_get_num_workers();
+  if (nw < 2) return 0;
+  if (!tls_steal_rng) tls_steal_rng = hk_mix(0x77 + (uint64_t)rank);
+  tls_steal_rng = hk_mix(tls_steal_rng);
+  uint64_t x = tls_steal_rng;
+  int victim = (int)((x >> 8) % (uint64_t)(nw - 1));
+  if (victim >= rank) victim++;
+  myth_thread_t th = 0;
+  switch ((x >> 3) & 3) {
+  case 0:
+    th = myth_wsapi_runqueue_take(victim, 0, 0);
+    atomic_fetch_add(&g_st_take, 1);
+    break;
+  case 1:
+    th = myth_wsapi_runqueue_take(victim, decide_half, &tls_steal_rng);
+    break;
+  case 2: {
+    char buf[64]; size_t sz = sizeof(buf);
+    myth_wsapi_runqueue_peek(victim, buf, &sz);
+    atomic_fetch_add(&g_st_peek, 1);
+    th = myth_wsapi_runqueue_take(victim, 0, 0);
+    break;
+  }
+  default:
+    th = myth_wsapi_runqueue_take(victim, 0, 0);
+    if (th && nw >= 3) {
+      int target = (int)((x >> 20) % (uint64_t)nw);
+      if (target != rank && target != victim) {
+        if (myth_wsapi_runqueue_pass(target, th)) { atomic_fetch_add(&g_st_pass_ok, 1); return 0; }
+        atomic_fetch_add(&g_st_pass_fail, 1);
+      }
+    }
+    break;
+  }
+  if (th) atomic_fetch_add(&g_st_got, 1);
+  return th;
+}
+
 static void deadlock_cb(FILE * out) {
   int n = atomic_load(&g_n_nodes), i, shown = 0;
   fprintf(out, "  unfinished tags:");
@@ -279,6 +329,8 @@ int main(int argc, char ** argv) {
     /* only the environment offers this; the driver sets MYTH_CHILD_FIRST=0 */
   }
   myth_verif_set_deadlock_cb(deadlock_cb);
+  int custom_steal = (int)hk_arg("steal", 0);
+  if (custom_steal) myth_wsapi_set_stealfunc(my_steal);
   myth_init();
   g_nodes = calloc((size_t)g_max_nodes, sizeof(node_t));
   long total_threads = 0;
@@ -315,5 +367,14 @@ int main(int argc, char ** argv) {
   static const char * on[N_ORD] = { "order_fwd", "order_rev", "order_random", "order_delegate" };
   for (m = 0; m < N_ORD; m++) hk_report(on[m], atomic_load(&g_ord_cnt[m]));
   hk_report("workers", myth_get_num_workers());
+  if (custom_steal) {
+    hk_report("steal_plain_take_calls", atomic_load(&g_st_take));
+    hk_report("steal_decide_callback_calls", atomic_load(&g_st_decl_calls));
+    hk_report("steal_declined", atomic_load(&g_st_declined));
+    hk_report("steal_peeks", atomic_load(&g_st_peek));
+    hk_report("steal_passed_to_third_worker", atomic_load(&g_st_pass_ok));
+    hk_report("steal_pass_failed", atomic_load(&g_st_pass_fail));
+    hk_report("steal_threads_obtained", atomic_load(&g_st_got));
+  }
   return hk_finish();
 }
